@@ -55,6 +55,17 @@ def extract_fgraph(spec, io=None):
         graph = _graph.results(**outputs)
         if not spec.get("drop"):
             graph = graph.with_arguments(*inputs.values())
+        if io is None and len(json.dumps(spec, sort_keys=True)) % 5 == 0:
+            # round 10: a fifth of the programs carry an extra requirement on the Graph itself (`with_opset`, the
+            # default domain under its other spelling, same version) - the `extra` of imports_agree_with_model_program
+            # at the version the model has anyway, so that no node is adapted differently (no new code paths of
+            # the version converter are entered; the built model is the same)
+            try:
+                cur = graph.get_opsets().get("")
+                if cur is not None:
+                    graph = graph.with_opset(("ai.onnx", cur))
+            except Exception:  # noqa: BLE001 - the ordinary path below reports what cannot be observed / built
+                pass
         try:
             opsets = graph.get_opsets()
         except (AttributeError, TypeError, NameError, ImportError) as e:
@@ -76,12 +87,19 @@ def extract_fgraph(spec, io=None):
 
             return one(b.main)
 
+        pbodies = []  # round 10: every reachable Function node, in `Func.bodiesG` order
+
+        def own_req(n):
+            from spox import _node
+            return sorted([d, v] for d, v in _node.Node.opset_req.fget(n))
+
         def graph_json(g):
+            """-> (FGraph json, PGraph json) of the real build of `g`"""
             b = _build.Builder(g)
             b.build_main()  # the real stages; only arguments_of / scope_own are read afterwards
 
             def one(gg):
-                nodes = []
+                nodes, pnodes = [], []
                 seq = [a._op for a in b.arguments_of[gg]] + [n for n in b.scope_own[gg] if not isinstance(n, Argument)]
                 for n in seq:
                     subs = list(n.subgraphs)
@@ -91,26 +109,42 @@ def extract_fgraph(spec, io=None):
                             rg = req_graph(n.func_graph)
                         except Exception as e:  # noqa: BLE001
                             rg = {"unobservable": f"{type(e).__name__}: {e}"}
+                        body_req = sorted([d, v] for d, v in n.func_graph._get_build_result().opset_req)
+                        real_imp = sorted([o.domain, o.version] for o in proto.opset_import)
                         imports.append({
                             "rgraph": rg,
                             "key": [proto.domain, proto.name],
-                            "body": sorted([d, v] for d, v in n.func_graph._get_build_result().opset_req),
+                            "body": body_req,
                             "model": sorted([d, v] for d, v in graph._get_opset_req()),
-                            "real": sorted([o.domain, o.version] for o in proto.opset_import),
+                            "real": real_imp,
                         })
+                        fp = fp_of(proto.SerializeToString(deterministic=True))
+                        try:
+                            own = own_req(n)
+                            node_req = sorted([d, v] for d, v in n.opset_req)
+                        except Exception as e:  # noqa: BLE001
+                            own, node_req = None, f"{type(e).__name__}: {e}"
+                        pbodies.append({"key": [n.op_type.domain, n.op_type.identifier], "fp": fp, "req": body_req,
+                                        "real": real_imp, "node_req": node_req})
+                        fb, pb = graph_json(n.func_graph)
                         nodes.append({"call": {"domain": n.op_type.domain, "name": n.op_type.identifier,
-                                               "fp": fp_of(proto.SerializeToString(deterministic=True)),
-                                               "body": graph_json(n.func_graph)}})
+                                               "fp": fp, "body": fb}})
+                        pnodes.append({"call": {"own": own, "domain": n.op_type.domain,
+                                                "name": n.op_type.identifier, "fp": fp, "body": pb}})
                     elif subs:
-                        nodes.append({"ctrl": [one(s) for s in subs]})
+                        pairs_ = [one(s) for s in subs]
+                        nodes.append({"ctrl": [f_ for f_, _ in pairs_]})
+                        pnodes.append({"ctrl": {"req": sorted([d, v] for d, v in n.opset_req),
+                                                "subs": [p_ for _, p_ in pairs_]}})
                     else:
                         nodes.append("op")
-                return {"nodes": nodes}
+                        pnodes.append({"op": sorted([d, v] for d, v in n.opset_req)})
+                return {"nodes": nodes}, {"nodes": pnodes}
 
             return one(b.main)
 
         try:
-            fg = graph_json(graph)
+            fg, pg = graph_json(graph)
         except (AttributeError, TypeError, NameError, ImportError, KeyError) as e:
             return None, ("unobservable", f"extract: {type(e).__name__}: {e}"), []
         except Exception as e:  # noqa: BLE001
@@ -122,6 +156,12 @@ def extract_fgraph(spec, io=None):
             real = ("err", "runtime") if "two different definitions" in str(e) else ("skip", f"RuntimeError: {e}")
         except Exception as e:  # noqa: BLE001
             real = ("skip", f"{type(e).__name__}")
+    try:  # round 10: the whole program as one requirement tree (Func.PGraph) + what the real build collected
+        imports.append({"pgraph": pg, "extra": sorted([d, v] for d, v in (graph._extra_opset_req or ())),
+                        "real_req": sorted([d, v] for d, v in graph._get_build_result().opset_req),
+                        "real_model": sorted([d, v] for d, v in opsets.items()), "bodies": pbodies})
+    except Exception as e:  # noqa: BLE001
+        imports.append({"pgraph": None, "unobservable": f"{type(e).__name__}: {e}"})
     return fg, real, imports
 
 
@@ -777,7 +817,9 @@ def run(ck: core.Check):
         cst["mismatches"] = mism
         ck.cov["collection"] = cst
         # ---- (b) imports
-        recs = [rec for r in results + cf_collect if r["mode"] == "collect" for rec in (r.get("imports") or [])]
+        allrecs = [rec for r in results + cf_collect if r["mode"] == "collect" for rec in (r.get("imports") or [])]
+        recs = [rec for rec in allrecs if "pgraph" not in rec]
+        progs = [rec for rec in allrecs if "pgraph" in rec]
         seen, uniq = set(), []
         for rec in recs:
             k = json.dumps(rec, sort_keys=True)
@@ -819,6 +861,64 @@ def run(ck: core.Check):
                 if rmism <= 3:
                     ck.broken("correspondence", "C14 nested requirement collection / imports of a function body",
                               f"key={rec['key']} model={json.dumps(o)[:300]} real_req={rec['body']} real_imports={rec['real']}")
+        # ---- (b') round 10: the whole program as ONE requirement tree (Func.PGraph): preqG == the real build's
+        # opset_req, policy == the model's opsets, and for every reachable Function node (bodiesG order) the body
+        # build's opset_req, the node's own opset_req (own ∪ body) and the FunctionProto's imports
+        pst = {"programs": 0, "bodies": 0, "mismatches": 0, "unobservable": 0, "with_extra": 0,
+               "max_bodies": 0}
+        pun = [rec for rec in progs if rec.get("pgraph") is None]
+        if pun:
+            pst["unobservable"] = len(pun)
+            ck.broken("correspondence", "C14 program requirement tree not observable", str(pun[0].get("unobservable"))[:300])
+        seenp, puniq = set(), []
+        for rec in progs:
+            if rec.get("pgraph") is None:
+                continue
+            k = json.dumps(rec, sort_keys=True)
+            if k not in seenp:
+                seenp.add(k)
+                puniq.append(rec)
+        pouts = drv.ask_many("C14", [{"k": "preq", "g": rec["pgraph"], "extra": rec["extra"]} for rec in puniq])
+        sset = lambda xs: sorted(set(map(tuple, xs)))  # noqa: E731
+        for rec, o in zip(puniq, pouts):
+            pst["programs"] += 1
+            pst["bodies"] += len(rec["bodies"])
+            pst["max_bodies"] = max(pst["max_bodies"], len(rec["bodies"]))
+            pst["with_extra"] += int(bool(rec["extra"]))
+            why = None
+            if "error" in o:
+                why = f"driver: {o['error']}"
+            elif sset(o["req"]) != sset(rec["real_req"]):
+                why = f"program requirements: model {sset(o['req'])} real {rec['real_req']}"
+            elif sorted(map(tuple, o["model"])) != sorted(map(tuple, rec["real_model"])):
+                why = f"model opsets: model {o['model']} real {rec['real_model']}"
+            elif len(o["bodies"]) != len(rec["bodies"]):
+                why = f"reachable function nodes: model {len(o['bodies'])} real {len(rec['bodies'])}"
+            else:
+                for mb, rb in zip(o["bodies"], rec["bodies"]):
+                    if mb["inst"] != rb["key"] + [rb["fp"]]:
+                        why = f"reachable function order: model {mb['inst']} real {rb['key']} fp {rb['fp']}"
+                    elif sset(mb["req"]) != sset(rb["req"]):
+                        why = f"body requirements of {rb['key']}: model {sset(mb['req'])} real {rb['req']}"
+                    elif sorted(map(tuple, mb["imports"])) != sorted(map(tuple, rb["real"])):
+                        why = f"imports of {rb['key']}: model {mb['imports']} real {rb['real']}"
+                    elif not isinstance(rb["node_req"], list):
+                        why = f"Function.opset_req of {rb['key']} not observable: {rb['node_req']}"
+                    if why:
+                        break
+                if why is None:
+                    # Function.opset_req == own ∪ body build's: checked through the tree (pownNs uses it), and
+                    # directly: every body requirement is among the real node's and the real program's
+                    for rb in rec["bodies"]:
+                        if not (set(map(tuple, rb["req"])) <= set(map(tuple, rb["node_req"])) <= set(map(tuple, rec["real_req"]))):
+                            why = f"body ⊆ Function.opset_req ⊆ program requirements fails for {rb['key']}"
+                            break
+            if why:
+                pst["mismatches"] += 1
+                if pst["mismatches"] <= 3:
+                    ck.broken("correspondence", "C14 whole-program requirement collection (Func.preqG / bodiesG)",
+                              f"{why} :: pgraph={json.dumps(rec['pgraph'])[:500]}")
+        ck.cov["program_requirements"] = pst
         ck.cov["imports"] = {"distinct_records": len(uniq), "mismatches": mism, "body_req_not_in_model_req": not_sub,
                              "requirement_trees": len(withg), "with_nested_bodies": nested, "tree_mismatches": rmism}
         # ---- (c) semantics
